@@ -259,6 +259,7 @@ func (p *Path) newInput(name string, s smt.Sort) *smt.Term {
 	t := smt.Var(name, s)
 	p.inNames[name] = t
 	p.inputs = append(p.inputs, t)
+	p.ref(t) // declare now so that models can always mention it
 	return t
 }
 
